@@ -187,3 +187,69 @@ Proof.
   - rewrite (Permutation_length (tsort_perm l2)). exact Hj.
   - exact E.
 Qed.
+
+(* ------------------------------------------------------------------------------------ *)
+(* the interpolating function returns the fitted value at every data forecast             *)
+(* ------------------------------------------------------------------------------------ *)
+Definition psrt (L : list (Q * Q)) : Prop := adj (fun a b : Q * Q => fst a <= fst b) L.
+Definition ppooled (L : list (Q * Q)) : Prop := adj (fun a b : Q * Q => fst a == fst b -> snd a = snd b) L.
+
+Lemma psrt_head h t : psrt (h :: t) -> forall e, In e t -> fst h <= fst e.
+Proof. apply (adj_head_trans (fun a b : Q * Q => fst a <= fst b)). intros a b c; apply Qle_trans. Qed.
+
+Lemma combine_cons2 {A B} (a : A) (b : B) l1 l2 : combine (a :: l1) (b :: l2) = (a, b) :: combine l1 l2.
+Proof. reflexivity. Qed.
+
+Lemma interp_at_member xs : forall ys x y', length ys = length xs ->
+  psrt (combine xs ys) -> ppooled (combine xs ys) ->
+  (exists x', In (x', y') (combine xs ys) /\ x' == x) -> interp_at xs ys x = XFin y'.
+Proof.
+  induction xs as [|x0 xs' IH]; intros ys x y' L Hs Hp [x' [Hin Ex]]; [destruct Hin|].
+  destruct ys as [|y0 ys']; [discriminate|]. simpl in L.
+  destruct xs' as [|x1 xs'']; destruct ys' as [|y1 ys'']; try discriminate.
+  - destruct Hin as [E|[]]. inversion E; subst. cbn [interp_at].
+    rewrite (Qeq_bool_compat x x' x' x' (Qeq_sym _ _ Ex) (Qeq_refl _)), Qeq_bool_refl. reflexivity.
+  - rewrite !combine_cons2 in *. destruct Hs as [H01 Hs]. destruct Hp as [P01 Hp]. simpl in H01, P01.
+    cbn [interp_at]. pose proof (Qle_bool_spec x1 x) as Hc. destruct (Qle_bool x1 x).
+    + apply (IH (y1 :: ys'') x y'); [simpl in *; lia | exact Hs | exact Hp|].
+      destruct Hin as [E|Hin]; [|exists x'; split; assumption].
+      inversion E; subst. exists x1. assert (E1 : x' == x1) by lra. split; [left; rewrite (P01 E1); reflexivity | lra].
+    + destruct Hin as [E|Hin].
+      * inversion E; subst. rewrite (Qeq_bool_compat x x' x' x' (Qeq_sym _ _ Ex) (Qeq_refl _)), Qeq_bool_refl. reflexivity.
+      * exfalso. destruct Hin as [E|Hin].
+        -- inversion E; subst. lra.
+        -- pose proof (psrt_head (x1, y1) (combine xs'' ys'') Hs (x', y') Hin). simpl in H. lra.
+Qed.
+
+Lemma adj_combine_map {A B C} (f : A -> C) (R : C * B -> C * B -> Prop) (l : list A) (v : list B) :
+  adj (fun a b : A * B => R (f (fst a), snd a) (f (fst b), snd b)) (combine l v) -> adj R (combine (map f l) v).
+Proof. revert v. induction l as [|x [|y t] IH]; intros [|a [|b v']] H; simpl in *; auto.
+  destruct H as [H1 H2]. split; [exact H1|]. apply (IH (b :: v')). exact H2. Qed.
+
+Lemma interp_ge xs ys x : xs <> [] -> hd 0 xs <= x -> interp xs ys x = interp_at xs ys x.
+Proof. intros N H. destruct xs as [|x0 r]; [congruence|]. unfold interp. simpl in H. rewrite Qltb_false by exact H. reflexivity. Qed.
+Lemma sorted_hd_le_nth (xs : list Q) k : adj (fun a b : Q => a <= b) xs -> (k < length xs)%nat -> hd 0 xs <= nth k xs 0.
+Proof. intros Hs Hk. destruct xs as [|a r]; [simpl in Hk; lia|]. destruct k; [apply Qle_refl|]. simpl.
+  apply (adj_head_trans (fun a b : Q => a <= b)) with (t := r); [intros u v w; apply Qle_trans | exact Hs|]. apply nth_In. simpl in Hk. lia. Qed.
+
+(* regression_func evaluated at the k-th tidied forecast is the k-th fitted value (any solver) *)
+Lemma interp_at_forecasts sv (l : list triple) k : (k < length l)%nat ->
+  interp (map tf (tsort l)) (pav sv (map titem (tsort l))) (tf (nth k (tsort l) (0, 0, 0))) = XFin (nth k (pav sv (map titem (tsort l))) 0).
+Proof.
+  intro Hk. set (t := tsort l). set (vals := pav sv (map titem t)).
+  assert (Lt : length t = length l) by (apply Permutation_length; apply tsort_perm).
+  assert (Lv : length vals = length t) by (unfold vals; rewrite pav_length, map_length; reflexivity).
+  assert (Hs : adj (fun a b : triple => tf a <= tf b) t).
+  { eapply adj_impl; [|apply tsort_sorted]. intros a b E. apply key_le_spec in E. tauto. }
+  assert (S1 : psrt (combine (map tf t) vals)).
+  { apply (adj_combine_map tf (fun a b : Q * Q => fst a <= fst b)). simpl. apply (adj_combine_l (fun a b : triple => tf a <= tf b)). exact Hs. }
+  assert (S2 : ppooled (combine (map tf t) vals)).
+  { apply (adj_combine_map tf (fun a b : Q * Q => fst a == fst b -> snd a = snd b)). simpl. apply tidy_ties_thm. }
+  assert (En : tf (nth k t (0, 0, 0)) = nth k (map tf t) 0) by (rewrite <- (map_nth tf t (0, 0, 0) k); reflexivity).
+  assert (Hin : In (tf (nth k t (0, 0, 0)), nth k vals 0) (combine (map tf t) vals)).
+  { rewrite En. rewrite <- (combine_nth (map tf t) vals k 0 0) by (rewrite map_length; lia). apply nth_In. rewrite combine_length, map_length. lia. }
+  rewrite interp_ge.
+  - apply interp_at_member; [rewrite map_length; lia | exact S1 | exact S2|]. eexists. split; [exact Hin | reflexivity].
+  - destruct t; [simpl in Lt; lia | simpl; discriminate].
+  - rewrite En. apply sorted_hd_le_nth; [apply adj_map; exact Hs | rewrite map_length; lia].
+Qed.
